@@ -34,7 +34,9 @@
     (e) blank-node relabelling: [C09_track_rename], [C09_rename_counts],
         [C09_profile_rename_invariant], [C09_keys_rename_invariant] under the
         side conditions [rename_dom] (identifiers marked, no blank-node class);
-        [C09_rename_bnode_class_refuted] shows the second one is needed.
+        [C09_rename_bnode_class_refuted] shows the second one is needed;
+        [C09_rename_stem_refuted] (finding C09-F3): with detect_minimal_iri the
+        stem of a shape whose instances are blank nodes is cut out of their labels.
 
     Not covered: runs with an instance cap under permutation (the capped
     tracker keeps the first [cap] instances per class in document order:
@@ -532,3 +534,37 @@ Proof.
   split; [vm_compute; reflexivity|]. split; [vm_compute; split; [discriminate | reflexivity]|].
   split; [vm_compute; reflexivity|]. split; [vm_compute; reflexivity|]. split; vm_compute; reflexivity.
 Qed.
+
+(** detect_minimal_iri is NOT invariant under a renaming (finding C09-F3): the
+    per-class fold of longest_common_prefix ([Model/MinIri.v: stem], the model of
+    ClassProfiler._update_shape_min_iri + _determine_suitable_iri_pattern that
+    C17 checks against the real code) runs over the KEYS of the instance
+    dictionary, blank-node identifiers included.  "_:b0", "_:b1" share "_:b",
+    cut back to "_:" (two characters: no stem); renamed to "_:genid:b0",
+    "_:genid:b1" (':' is a PN_CHARS_U of N-Triples) they share "_:genid:b",
+    cut back to "_:genid:" -- printed as [<_:genid:>~] AND on the shape line. *)
+From Shexer Require Import Model.MinIri.
+
+Definition sg_genid (s : str) : str := Str "_:genid:" ++ skipn 2 s.
+
+Example C09_sg_genid_is_renaming : bn_renaming sg_genid.
+Proof.
+  constructor.
+  - intros s _. reflexivity.
+  - intros a b Ha Hb H. unfold bn_pref in *. apply prefixb_spec in Ha. apply prefixb_spec in Hb.
+    destruct Ha as [ra ->]. destruct Hb as [rb ->]. unfold sg_genid in H.
+    assert (E : forall r, skipn 2 (Str "_:" ++ r) = r) by reflexivity.
+    rewrite !E in H. apply app_inv_head in H. rewrite H. reflexivity.
+Qed.
+
+Definition g_bnstem : graph := [T (bn "b0") tau (ON (iri "A")); T (bn "b1") tau (ON (iri "A"))].
+
+Lemma C09_rename_stem_refuted :
+  bn_renaming sg_genid /\ rename_dom tau g_bnstem = true /\
+  track tau TAll (-1) g_bnstem = inl [(Str "_:b0", [ex "A"]); (Str "_:b1", [ex "A"])] /\
+  track tau TAll (-1) (rename_graph sg_genid g_bnstem) =
+    inl [(Str "_:genid:b0", [ex "A"]); (Str "_:genid:b1", [ex "A"])] /\
+  MinIri.stem [Str "_:b0"; Str "_:b1"] = None /\
+  MinIri.stem [Str "_:genid:b0"; Str "_:genid:b1"] = Some (Str "_:genid:").
+Proof. split; [exact C09_sg_genid_is_renaming|]. repeat split; vm_compute; reflexivity. Qed.
+Print Assumptions C09_rename_stem_refuted.
